@@ -23,7 +23,7 @@ NA = {
 LEVEL = {
  "C05": ("proof", "One entry of the Select instruction, function by function on the real executor code (handle_select, initialize_select, process_select_sources, handle_select_receive, handle_receive_result, scan_mailbox_for_message, call_receive_function, complete_select, the timeout / awaited-process / start-time / continuation helpers, check_expired_timeouts), for all states: first entry installs the popped sources in written order with one zero cursor per receive source, asks for the awaited processes first and starts the timeouts' clock only once they have answered; on every later entry the select is decided at the first source in written order that is ready - no timeout written before it has elapsed (measured from the fixed start time, clamped to [0, i64::MAX] ms), no awaited process written before it has a recorded result, no receive source written before it has a message its type admits from its cursor on; a timeout yields nil, a process its recorded result, a body-less receiver the earliest admissible message, a filtering receiver has its body started on that message and on re-entry any non-nil verdict yields the message itself (never the verdict) while nil moves that source's cursor past it; the taken message leaves the mailbox and all others keep their order; nothing ready parks the process with the mailbox untouched, and exactly the parked processes one of whose timeouts has run out are woken at the start of the next step; and on every outcome the heap counts move exactly as much as what the process roots. Deductive proof is the right level because the failures are at single interleavings of arrivals with re-entries (one such leak, D9, was found at a precondition and repaired). One turn of one receive source preserves the cursor invariant (nothing before its cursor is a message it takes) and, under it, yields the earliest message of the whole mailbox the source takes (A-filter: a filter's verdict is a function of source and message). Not decided: the composition of that invariant over the source loop and across entries and arrivals, the filter body's own execution (handle_call is assumed, A-call), which concrete types a receiver admits (A-compat), error propagation from a failed awaited process across workers (worker.rs; the executor's half is proved under C15), next_timeout_ms and the cross-worker await answers (environment.rs).", "DESIGN.md §4 C05"),
  "C12": ("proof", "Every pure builtin except integer_sin/cos (f64) - 15 integer, 20 binary, 11 vector builtins - and the binary rope they are built on (incl. find_byte and the byte iterator) is proved total (no panic for any argument) and equal to a mathematical reference model stated over the abstract byte view: unbounded integers, flat byte sequences, big-endian numbers for the bit-field builtins, lane-wise arithmetic for the vector kernels, FNV-1a as a fold; unbounded in input size and rope shape. One branch of binary_shift is excluded by a documented verifier limit (function reported as partial, not counted). Deductive proof is the right level because the defects live at single representation-boundary inputs that sampling does not reach (six were found and repaired).", "DESIGN.md §4 C12"),
- "C15": ("proof", "Second sentence of the property (workers never panic) and the executor's half of the first: Verus's implicit safety obligations (overflow, bounds, unwrap, division by zero, shift, reachable panic!/unreachable!/debug_assert!) are discharged for every function under contract - all builtins, the rope, the heap choke points, 18 of 19 hot instruction handlers, the cold-path handlers, the select machinery, Executor::step's own glue, cross-heap transfer - for all arguments and all states satisfying the stated well-formedness; for the VM units every accounting obligation counts too, because a count that drifts is a debug-build worker panic. Of the first sentence the executor's half is decided at function level (Executor::step: an instruction's error becomes the process's result and clears its frames, every process of that executor's table awaiting it gets the same error and no frames, a failed process executes nothing any more); that the other processes run to their normal results, awaiters on other workers and late awaiters are schedule-level and not decided. handle_call (assumed for the one branch a select filter takes) and the two instruction dispatchers (assumed with what the handlers ensure) are outside the dialect.", "DESIGN.md §4 C15"),
+ "C15": ("proof", "Second sentence of the property (workers never panic) and the executor's half of the first: Verus's implicit safety obligations (overflow, bounds, unwrap, division by zero, shift, reachable panic!/unreachable!/debug_assert!) are discharged for every function under contract - all builtins, the rope, the heap choke points, 18 of 19 hot instruction handlers, the cold-path handlers, the select machinery, Executor::step's own glue, cross-heap transfer - for all arguments and all states satisfying the stated well-formedness; for the VM units every accounting obligation counts too, because a count that drifts is a debug-build worker panic. Of the first sentence the executor's half is decided at function level (Executor::step: an instruction's error becomes the process's result and clears its frames, every process of that executor's table awaiting it gets the same error and no frames, a failed process executes nothing any more); across workers, Worker::query_and_await registers every target that has not finished with a value (a failed one too) with the awaiter on its list and Worker::notify_result makes an arriving failure the awaiter's own result; that the other processes run to their normal results, the rest of worker.rs / environment.rs and late awaiters are not decided. handle_call (assumed for the one branch a select filter takes) and the two instruction dispatchers (assumed with what the handlers ensure) are outside the dialect.", "DESIGN.md §4 C15"),
  "C06": ("proof", "Function-level heap accounting: allocator representation invariant, retain/release exact against a ghost occurrence count, choke points, 18 hot handlers, the cold-path functions (incl. the REPL's replace_locals / release_orphan_locals) and the 7 functions of the select machinery balance counts against what they store (stack, locals, select state, mailbox); no premature free, no live slot handed out, content preserved by materialize; cross-heap transfer proved end to end (extract_heap_data, inject_heap_data, spawn_process and the transfer theorem: what is sent reads back the same bytes, in slots not live before, counted exactly as rooted, one allocation per incoming binary). Executor::step reclaims only at the start of a step (whatever slot is free afterwards and was not before had been queued, uncounted, before the step began) and keeps the running process's roots live and counted across frame teardown. The global equation over all roots of all processes and all schedules, handle_call, the two instruction dispatchers (assumed) and the worker-side glue are not decided.", "DESIGN.md §4 C06"),
  "C13": ("proof", "The VM's comparator only: Executor::values_equal (what pinned matches, literal matches and repeated binders execute through the Equal instruction) returns exactly the property's structural equality - equal integers, byte-equal binaries whatever their storage (constant table, heap rope of any shape), same canonical tuple shape and pairwise-equal fields, same definition and pairwise-equal captures, same process, same ref, different kinds differ - for all values of any depth, and that relation is proved reflexive (on valid values), symmetric and transitive; handle_equal pushes the first value exactly when all compared values are structurally equal to it, nil otherwise, and keeps the heap accounting balanced. Not decided: that the compiler / program updates give equal shapes equal canonical ids on every path (assumption A-canon; seeded change R4b lives there), uniqueness of minted refs across workers, and resource handles (the property is silent about them).", "DESIGN.md §4 C13"),
  "C16": ("proof", "VM mechanism of tail calls: executing TailCall never adds a frame, resets the frame's locals to base (+captures), changes the operand stack by exactly 0/-1 and releases what it drops; release queues what reaches count 0 and process_pending_free empties the queue and frees every queued slot still at count 0, and Executor::step begins every time slice with it; for all states. Compiler-side residue (what is emitted around ^) is not decided; step's own postconditions (frame teardown, where else reclamation may not happen) are decided under C06 / C15.", "DESIGN.md §4 C16"),
